@@ -170,6 +170,7 @@ impl Oplog {
                         get_slices_checked(&existing, OplogSlot::Entries as usize)?.1;
                     let mut entries: Vec<Entry> = Vec::new();
                     let mut partials: Vec<bool> = Vec::new();
+                    let mut entry_byte_lengths: Vec<u64> = Vec::new();
                     // Entries belong to the current header only if they carry its header
                     // bit; anything else is a leftover from before the last flush whose
                     // truncation did not happen.
@@ -180,6 +181,7 @@ impl Oplog {
                         }
                         let res = Entry::decode(entry_outcome.state)?;
                         entries.push(res.0);
+                        entry_byte_lengths.push((entries_buff.len() - res.1.len()) as u64);
                         entries_buff = res.1;
                         partials.push(entry_outcome.partial_bit);
                     }
@@ -188,6 +190,10 @@ impl Oplog {
                     while !partials.is_empty() && partials[partials.len() - 1] {
                         entries.pop();
                     }
+                    // New entries are appended after the ones that were kept
+                    outcome.oplog.entries_length = entries.len() as u64;
+                    outcome.oplog.entries_byte_length =
+                        entry_byte_lengths.iter().take(entries.len()).sum();
                     outcome.entries = Some(entries.into_boxed_slice());
                 }
                 Ok(Either::Right(outcome))
